@@ -571,7 +571,8 @@ func (g *G) Document(p Profile) *Doc {
 		doc["payment"] = pay
 	}
 	if p.Preset && g.chance(6) {
-		doc["totals"] = map[string]any{"rounding": g.pick("0.01", "-0.02", "0.05")}
+		// a few smallest units of the document currency
+		doc["totals"] = map[string]any{"rounding": dec.New(int64(g.rng.IntN(11)-5), c).String()}
 		feats["preset-rounding"] = true
 	}
 	if effRule == "currency" {
